@@ -40,6 +40,10 @@ var corpusApply = []capply{
 	{"1001", `{"a":{"b":1}}`, `[{"op":"move","from":"/a","path":"/a/b/c"}]`},
 	{"1001", `{"a":1}`, `[{"op":"move","from":"/a","path":"/a"}]`},
 	{"1001", `{"a":[1,2,3]}`, `[{"op":"remove","path":"/a/-1"},{"op":"add","path":"/a/-1","value":9}]`},
+	{"1001", `null`, `[{"op":"test","path":"","value":{}}]`},
+	{"1001", `null`, `[{"op":"test","path":"","value":{"a":1}}]`},
+	{"1001", ` null `, `[{"op":"test","path":"","value":null}]`},
+	{"1001", `null`, `[{"op":"test","path":"/a","value":null}]`},
 }
 
 func streamCorpus() {
@@ -78,6 +82,9 @@ func streamCorpus() {
 	for i, t := range handMade {
 		emitValid(fmt.Sprintf("corpus-v%d", i), []byte(t))
 		emitEntry(fmt.Sprintf("corpus-n%d", i), []byte(t))
+		replayCodec(fmt.Sprintf("corpus-r%d", i), "roundtrip", []byte("1"), []byte(t))
+		replayCodec(fmt.Sprintf("corpus-q%d", i), "compact", nil, []byte(t))
+		emit("EQUAL corpus-h%d %s %s => %s", i, hx([]byte(t)), hx([]byte(t)), callEqual([]byte(t), []byte(t)))
 	}
 	for i, t := range []string{"null", "[]", "[null]", `[{"op":"add","path":"/a","value":null}]`, `[{"op":"add","path":"/a"}]`,
 		`[{"op":"test","path":"/a"}]`, `[{"op":"move","path":"/a"}]`, `[{"op":"remove","path":null}]`, `{"op":"remove","path":"/a"}`,
